@@ -232,6 +232,20 @@ theorem preCart_nodup {depth Pi : Nat} (hPi : 0 < Pi) {S : List Ev} (hnd : S.Nod
     have k2 := (i2' z (e ▸ hz)).2
     exact hne (k1.symm.trans k2)
 
+theorem length_filterMap_some {α β : Type} (f : α → Option β) : ∀ (l : List α), (∀ a ∈ l, (f a).isSome) →
+    (l.filterMap f).length = l.length := by
+  intro l
+  induction l with
+  | nil => intro _; rfl
+  | cons a l ih =>
+    intro h
+    have h1 := h a (by simp)
+    cases hf : f a with
+    | none => rw [hf] at h1; cases h1
+    | some b =>
+      simp only [List.filterMap_cons, hf, List.length_cons]
+      rw [ih (fun x hx => h x (List.mem_cons_of_mem _ hx))]
+
 /-- two specified configurations with the same ports and the same last components are equal -/
 theorem eq_of_same_lasts {S : List Ev} {κ : Tag}
     (hdist : ∀ e ∈ S, ∀ e' ∈ S, e.1 = e'.1 → e.2.tag = e'.2.tag → e = e')
@@ -271,7 +285,7 @@ theorem eq_of_same_lasts {S : List Ev} {κ : Tag}
     `key ++ last components`; the composite tag determines the schema -/
 theorem specRetag_uniform {Pi L : Nat} {S : List Ev} (hwf : WFCart 1 Pi L S) (hroot : Rooted S)
     {σ : List (Nat × Tok)} (hσ : σ ∈ preCart 1 Pi S) :
-    ∃ τ : Tag, τ.head? = some 0 ∧ specRetag σ ≠ [] ∧ (∀ y ∈ specRetag σ, y.2.tag = τ) ∧
+    ∃ τ : Tag, τ.length = L - 1 + Pi ∧ τ.head? = some 0 ∧ specRetag σ ≠ [] ∧ (∀ y ∈ specRetag σ, y.2.tag = τ) ∧
       (specRetag σ).map (·.1) = List.range Pi ∧
       ∀ σ' ∈ preCart 1 Pi S, (∀ y ∈ specRetag σ', y.2.tag = τ) → σ' = σ := by
   obtain ⟨_, hPi, hnd, hports, hlen, hdist⟩ := hwf
@@ -298,7 +312,16 @@ theorem specRetag_uniform {Pi L : Nat} {S : List Ev} (hwf : WFCart 1 Pi L S) (hr
     simp only
     rw [(hmem x hx).2]
   obtain ⟨κ, hκl, hσne, hσk, hσm, hσt⟩ := shape σ hσ
-  refine ⟨κ ++ σ.filterMap (fun y => y.2.tag.getLast?), ?_, ?_, hσt, ?_, ?_⟩
+  refine ⟨κ ++ σ.filterMap (fun y => y.2.tag.getLast?), ?_, ?_, ?_, hσt, ?_, ?_⟩
+  · have hl : (σ.filterMap (fun y => y.2.tag.getLast?)).length = σ.length := by
+      apply length_filterMap_some
+      intro z hz
+      rw [List.getLast?_eq_some_getLast (hne z (hσm z hz).1)]
+      rfl
+    have hσl : σ.length = Pi := by
+      have := congrArg List.length hσk
+      simpa using this
+    rw [List.length_append, hl, hκl, hσl]
   · -- rooted
     obtain ⟨z0, r, rfl⟩ := List.exists_cons_of_ne_nil hσne
     obtain ⟨hz0, hz0k⟩ := hσm z0 (by simp)
@@ -325,5 +348,235 @@ theorem specRetag_uniform {Pi L : Nat} {S : List Ev} (hwf : WFCart 1 Pi L S) (hr
     obtain ⟨hk, hs⟩ := this
     subst hk
     exact eq_of_same_lasts hdist hne σ' σ (by rw [hσk', hσk]) hs hσm' hσm
+
+/-! ### the nested shape `dot[cart₁[0 … Pi-1], plain ports]` -/
+
+def nestItems (Pi : Nat) (plains : List Nat) : List Item :=
+  Item.sub (.cart 1) (List.range Pi) :: plains.map Item.port
+
+def isInner (Pi : Nat) (e : Ev) : Bool := decide (e.1 < Pi)
+
+/-- an inner schema as the outer combinator files it: item 0, tag `get_tag` of its tokens -/
+def mk0 (σ : Emit) : CF.Ev := (0, ⟨schemaTag σ, σ⟩)
+
+/-- a token of a plain port as the outer combinator files it: the position of the port in `items` -/
+def plainEv (items : List Item) (e : Ev) : CF.Ev :=
+  ((findPort e.1 items 0).getD items.length, Elem.ofTok e.1 e.2)
+
+/-- **the element stream of the outer combinator as a function of the input stream** (up to order): the specified
+    schemas of the inner cartesian product, and the tokens of the plain ports -/
+def derivedSpec (Pi : Nat) (plains : List Nat) (S : List Ev) : List CF.Ev :=
+  (specCart 1 Pi (S.filter (isInner Pi))).map mk0 ++
+    (S.filter (fun e => !isInner Pi e)).map (plainEv (nestItems Pi plains))
+
+structure WFNest (Pi L : Nat) (plains : List Nat) (S : List Ev) : Prop where
+  inner : WFCart 1 Pi L (S.filter (isInner Pi))
+  rooted : Rooted S
+  nodup : S.Nodup
+  plainPorts : ∀ e ∈ S, ¬ e.1 < Pi → e.1 ∈ plains
+  plainsNodup : plains.Nodup
+  anti : ∀ e ∈ S, ∀ e' ∈ S, ¬ e.1 < Pi → e.1 = e'.1 → e.2.tag <+: e'.2.tag → e = e'
+
+theorem findPort_ge (p : Nat) : ∀ (l : List Item) (i j : Nat), findPort p l i = some j → i ≤ j := by
+  intro l
+  induction l with
+  | nil => intro i j h; simp [findPort] at h
+  | cons x r ih =>
+    intro i j h
+    cases x with
+    | port q =>
+      simp only [findPort] at h
+      split at h
+      · cases h; exact Nat.le_refl _
+      · exact Nat.le_trans (Nat.le_succ _) (ih _ _ h)
+    | sub k ports =>
+      simp only [findPort] at h
+      exact Nat.le_trans (Nat.le_succ _) (ih _ _ h)
+
+theorem findPort_ports (p : Nat) : ∀ (l : List Nat) (i : Nat), p ∈ l →
+    ∃ j, findPort p (l.map Item.port) i = some j ∧ i ≤ j ∧ j < i + l.length := by
+  intro l
+  induction l with
+  | nil => intro i h; cases h
+  | cons q r ih =>
+    intro i h
+    simp only [List.map_cons, findPort]
+    by_cases hq : q = p
+    · exact ⟨i, by simp [hq], Nat.le_refl _, by simp⟩
+    · have hr : p ∈ r := by
+        rcases List.mem_cons.mp h with h | h
+        · exact absurd h.symm hq
+        · exact h
+      obtain ⟨j, h1, h2, h3⟩ := ih (i + 1) hr
+      exact ⟨j, by simp [hq, h1], by omega, by simp; omega⟩
+
+theorem findPort_inj (p p' : Nat) : ∀ (l : List Nat) (i j : Nat),
+    findPort p (l.map Item.port) i = some j → findPort p' (l.map Item.port) i = some j → p = p' := by
+  intro l
+  induction l with
+  | nil => intro i j h; simp [findPort] at h
+  | cons q r ih =>
+    intro i j h h'
+    simp only [List.map_cons, findPort] at h h'
+    by_cases hq : q = p
+    · by_cases hq' : q = p'
+      · exact hq.symm.trans hq'
+      · rw [if_pos hq] at h
+        rw [if_neg hq'] at h'
+        cases h
+        have := findPort_ge p' _ _ _ h'
+        omega
+    · rw [if_neg hq] at h
+      by_cases hq' : q = p'
+      · rw [if_pos hq'] at h'
+        cases h'
+        have := findPort_ge p _ _ _ h
+        omega
+      · rw [if_neg hq'] at h'
+        exact ih _ _ h h'
+
+theorem findSub_ports (p : Nat) : ∀ (l : List Nat) (i : Nat), findSub p (l.map Item.port) i = none := by
+  intro l
+  induction l with
+  | nil => intro i; rfl
+  | cons q r ih => intro i; simp only [List.map_cons, findSub]; exact ih _
+
+theorem findSub_nest (Pi : Nat) (plains : List Nat) (p : Nat) :
+    findSub p (nestItems Pi plains) 0 = if p < Pi then some (0, Kind.cart 1, List.range Pi) else none := by
+  simp only [nestItems, findSub, List.mem_range]
+  split
+  · rfl
+  · exact findSub_ports p plains 1
+
+theorem plainEv_item {Pi : Nat} {plains : List Nat} {e : Ev} (h : e.1 ∈ plains) :
+    ∃ j, findPort e.1 (nestItems Pi plains) 0 = some j ∧ 1 ≤ j ∧ j < (nestItems Pi plains).length := by
+  obtain ⟨j, h1, h2, h3⟩ := findPort_ports e.1 plains 1 h
+  refine ⟨j, by simp only [nestItems, findPort]; exact h1, h2, ?_⟩
+  simp [nestItems]; omega
+
+theorem schemaTag_uniform {σ : Emit} {τ : Tag} (hne : σ ≠ []) (hr : τ.head? = some 0)
+    (h : ∀ y ∈ σ, y.2.tag = τ) : schemaTag σ = τ := by
+  unfold schemaTag
+  obtain ⟨y, hy⟩ := List.exists_mem_of_ne_nil _ hne
+  have hτne : τ ≠ [] := by intro h0; rw [h0] at hr; simp at hr
+  apply getTag_chain (d := τ)
+  · exact List.mem_map.mpr ⟨y, hy, h y hy⟩
+  · intro t ht
+    obtain ⟨z, hz, rfl⟩ := List.mem_map.mp ht
+    rw [h z hz]; exact hτne
+  · intro t ht
+    obtain ⟨z, hz, rfl⟩ := List.mem_map.mp ht
+    rw [h z hz]; exact List.prefix_refl _
+  · exact hr
+
+theorem rooted_filter {S : List Ev} (h : Rooted S) (p : Ev → Bool) : Rooted (S.filter p) :=
+  fun e he => h e (List.mem_filter.mp he).1
+
+/-- what an inner event of the derived specification looks like -/
+theorem mem_inner_part {Pi L : Nat} {plains : List Nat} {S : List Ev} (h : WFNest Pi L plains S) {x : CF.Ev}
+    (hx : x ∈ (specCart 1 Pi (S.filter (isInner Pi))).map mk0) :
+    ∃ σ ∈ preCart 1 Pi (S.filter (isInner Pi)), x = mk0 (specRetag σ) ∧
+      ∃ τ : Tag, τ.length = L - 1 + Pi ∧ τ.head? = some 0 ∧ specRetag σ ≠ [] ∧ (∀ y ∈ specRetag σ, y.2.tag = τ) ∧
+        x.2.tag = τ ∧
+        ∀ σ' ∈ preCart 1 Pi (S.filter (isInner Pi)), (∀ y ∈ specRetag σ', y.2.tag = τ) → σ' = σ := by
+  rw [specCart_eq_pre, List.map_map] at hx
+  obtain ⟨σ, hσ, rfl⟩ := List.mem_map.mp hx
+  obtain ⟨τ, t1, t2, t3, t4, _, t6⟩ := specRetag_uniform h.inner (rooted_filter h.rooted _) hσ
+  exact ⟨σ, hσ, rfl, τ, t1, t2, t3, t4, schemaTag_uniform t3 t2 t4, t6⟩
+
+theorem derivedSpec_ok {Pi L : Nat} {plains : List Nat} {S : List Ev} (h : WFNest Pi L plains S) :
+    ∀ x ∈ derivedSpec Pi plains S, ElemOK x.2 := by
+  intro x hx
+  rcases List.mem_append.mp hx with hx | hx
+  · obtain ⟨σ, _, rfl, τ, _, t2, t3, t4, t5, _⟩ := mem_inner_part h hx
+    refine ⟨?_, t3, ?_⟩
+    · rw [t5]; exact t2
+    · intro y hy
+      rw [t5]; exact t4 y hy
+  · obtain ⟨e, he, rfl⟩ := List.mem_map.mp hx
+    have heS := (List.mem_filter.mp he).1
+    refine ⟨h.rooted e heS, by simp [plainEv, Elem.ofTok], ?_⟩
+    intro y hy
+    simp only [plainEv, Elem.ofTok, List.mem_singleton] at hy
+    rw [hy]; rfl
+
+theorem derivedSpec_wf {Pi L : Nat} {plains : List Nat} {S : List Ev} (h : WFNest Pi L plains S) :
+    CF.WF (plains.length + 1) (derivedSpec Pi plains S) := by
+  have hlen : (nestItems Pi plains).length = plains.length + 1 := by simp [nestItems]
+  have hplain : ∀ e ∈ S.filter (fun e => !isInner Pi e), e ∈ S ∧ ¬ e.1 < Pi ∧ e.1 ∈ plains := by
+    intro e he
+    obtain ⟨h1, h2⟩ := List.mem_filter.mp he
+    have : ¬ e.1 < Pi := by simpa [isInner] using h2
+    exact ⟨h1, this, h.plainPorts e h1 this⟩
+  refine ⟨?_, ?_, ?_⟩
+  · -- no repeated event
+    apply List.nodup_append.mpr
+    refine ⟨?_, ?_, ?_⟩
+    · rw [specCart_eq_pre, List.map_map]
+      apply List.pairwise_map.mpr
+      refine List.Pairwise.imp_of_mem ?_ (preCart_nodup h.inner.2.1 h.inner.2.2.1)
+      intro σ σ' hσ hσ' hne e
+      apply hne
+      obtain ⟨τ, _, _, _, t4, _, t6⟩ := specRetag_uniform h.inner (rooted_filter h.rooted _) hσ'
+      have e' : specRetag σ = specRetag σ' := by
+        simp only [Function.comp, mk0, Prod.mk.injEq, Elem.mk.injEq, true_and] at e
+        exact e.2
+      exact t6 σ hσ (fun y hy => t4 y (e' ▸ hy))
+    · refine List.Pairwise.map _ ?_ (h.nodup.filter _)
+      intro a b hne e
+      apply hne
+      simp only [plainEv, Elem.ofTok, Prod.mk.injEq, Elem.mk.injEq, List.cons.injEq, and_true] at e
+      obtain ⟨a1, a2⟩ := a
+      obtain ⟨b1, b2⟩ := b
+      simp only at e
+      rw [e.2.2.1, e.2.2.2]
+    · intro a ha b hb hab
+      obtain ⟨σ, _, rfl⟩ := List.mem_map.mp ha
+      obtain ⟨e, he, rfl⟩ := List.mem_map.mp hb
+      obtain ⟨j, hj, hj1, _⟩ := plainEv_item (Pi := Pi) (hplain e he).2.2
+      have := congrArg Prod.fst hab
+      simp only [mk0, plainEv, hj, Option.getD_some] at this
+      omega
+  · intro x hx
+    rcases List.mem_append.mp hx with hx | hx
+    · obtain ⟨σ, _, rfl⟩ := List.mem_map.mp hx
+      simp [mk0]
+    · obtain ⟨e, he, rfl⟩ := List.mem_map.mp hx
+      obtain ⟨j, hj, _, hj2⟩ := plainEv_item (Pi := Pi) (hplain e he).2.2
+      simp only [plainEv, hj, Option.getD_some]
+      omega
+  · intro x hx x' hx' hitem hpre
+    rcases List.mem_append.mp hx with hx | hx <;> rcases List.mem_append.mp hx' with hx' | hx'
+    · obtain ⟨σ, hσ, rfl, τ, t1, _, _, t4, t5, _⟩ := mem_inner_part h hx
+      obtain ⟨σ', hσ', rfl, τ', t1', _, _, _, t5', t6'⟩ := mem_inner_part h hx'
+      rw [t5, t5'] at hpre
+      have : τ = τ' := List.IsPrefix.eq_of_length_le (CF.pre_iff.mp hpre).1 (by omega)
+      subst this
+      rw [t6' σ hσ t4]
+    · obtain ⟨σ, _, rfl⟩ := List.mem_map.mp hx
+      obtain ⟨e, he, rfl⟩ := List.mem_map.mp hx'
+      obtain ⟨j, hj, hj1, _⟩ := plainEv_item (Pi := Pi) (hplain e he).2.2
+      simp only [mk0, plainEv, hj, Option.getD_some] at hitem
+      omega
+    · obtain ⟨e, he, rfl⟩ := List.mem_map.mp hx
+      obtain ⟨σ, _, rfl⟩ := List.mem_map.mp hx'
+      obtain ⟨j, hj, hj1, _⟩ := plainEv_item (Pi := Pi) (hplain e he).2.2
+      simp only [mk0, plainEv, hj, Option.getD_some] at hitem
+      omega
+    · obtain ⟨e, he, rfl⟩ := List.mem_map.mp hx
+      obtain ⟨e', he', rfl⟩ := List.mem_map.mp hx'
+      obtain ⟨heS, hni, hpl⟩ := hplain e he
+      obtain ⟨heS', _, hpl'⟩ := hplain e' he'
+      obtain ⟨j, hj, _, _⟩ := plainEv_item (Pi := Pi) hpl
+      obtain ⟨j', hj', _, _⟩ := plainEv_item (Pi := Pi) hpl'
+      simp only [plainEv, hj, hj', Option.getD_some] at hitem
+      subst hitem
+      have hport : e.1 = e'.1 := by
+        simp only [nestItems, findPort] at hj hj'
+        exact findPort_inj _ _ _ _ _ hj hj'
+      have hpre' : e.2.tag <+: e'.2.tag := by
+        have := (CF.pre_iff.mp hpre).1
+        simpa [plainEv, Elem.ofTok] using this
+      rw [h.anti e heS e' heS' hni hport hpre']
 
 end SFV.Comb
